@@ -316,6 +316,9 @@ class MethodMixin(object):
         params = []
         if len(args) > 1:
             p = args[1]
+            if p[0] == "const" and isinstance(p[1], tuple):
+                # a constant tuple (e.g. the default `()` of a helper's parameter)
+                p = ("tuple", tuple(("const", x) for x in p[1]))
             if p[0] == "tuple":
                 params = list(p[1])
             elif p[0] in ("dictlit", "kwdict") and all(
